@@ -852,17 +852,21 @@ def oracleMulti (c : CaseIn) (rkv : KV) : Option String :=
   let evs := (get rkv "ev").splitOn "/"
   if get rkv "umap" ≠ "same" then some "C12:user-supplied-parameter-map-modified"
   else if get rkv "retain" ≠ "ok" then some ("C18:retained-data-" ++ get rkv "retain")
+  else
+  -- with an authentication strategy every connection's verdict must be its own (C01): name that first
+  -- when something differs
+  let outs := (get rkv "out").splitOn "/"
+  let ends := (get rkv "end").splitOn "/"
+  let differs := (get rkv "solo").startsWith "diff" ∨ ends.contains "hang"
+  let c01 : Option String :=
+    if c.cfg.auth ∧ differs then
+      (ins.zip (outs.zip (evs.zip ends))).findSome? fun (hx, o, ev, en) =>
+        oracleAuth { c with inp := (unhex hx).getD [] } (implChunks o) [("ev", ev), ("end", en)]
+    else none
+  if c01.isSome then c01
+  else if ends.contains "hang" then
+    some ("C15:a-connection-was-never-served-or-never-came-to-rest:end=" ++ get rkv "end")
   else if (get rkv "solo").startsWith "diff" then
-    -- with an authentication strategy every connection's verdict must be its own (C01): name that
-    -- first when it is what differs
-    let outs := (get rkv "out").splitOn "/"
-    let ends := (get rkv "end").splitOn "/"
-    let c01 : Option String :=
-      if c.cfg.auth then
-        (ins.zip (outs.zip (evs.zip ends))).findSome? fun (hx, o, ev, en) =>
-          oracleAuth { c with inp := (unhex hx).getD [] } (implChunks o) [("ev", ev), ("end", en)]
-      else none
-    c01.orElse fun _ =>
     some ("C15:connection-differs-from-the-same-traffic-served-alone:" ++ get rkv "solo")
   else (ins.zip evs).findSome? fun (hx, ev) =>
     let inp := (unhex hx).getD []
